@@ -103,12 +103,12 @@ def check(model, opts, feeds_list):
             f = None
             ns = {}
             try:
-                f = exec_text(text, None if not inits else _match_inits(text, inits))
+                f = exec_text(text, _match_inits(text, inits))
             except TypeError:
                 raise
         else:
             f = exec_text(text)
-        new = f.to_model_proto()
+        new = f if isinstance(f, onnx.ModelProto) else f.to_model_proto()  # make_model() of the skip_initializers form returns the proto
     except _HarnessLimit:
         info["outcomes"] = ["harness_cannot_call_make_model"]
         return [], info
@@ -314,15 +314,48 @@ def _empty_1d_const(case):
     return False
 
 
+def _all_inits(g):
+    yield from g.initializer
+    for n in g.node:
+        for a in n.attribute:
+            if a.type == onnx.AttributeProto.GRAPH:
+                yield from _all_inits(a.g)
+
+
+def _opset(case):
+    return next((o.version for o in _m(case).opset_import if o.domain in ("", "ai.onnx")), 99)
+
+
+_PY_OPERATORS = {"Add", "Sub", "Mul", "MatMul", "Div", "Pow", "And", "Or", "Greater", "Equal", "Lesser", "GreaterOrEqual", "LessOrEqual"}
+
+
+def _operator_only_body(case):
+    m = _m(case)
+    inline = bool(case["opts"].get("inline_const"))
+
+    def only_ops(nodes):
+        nodes = [n for n in nodes if not (inline and n.op_type == "Constant")]
+        return bool(nodes) and all(n.op_type in _PY_OPERATORS and n.domain in ("", "ai.onnx") for n in nodes)
+
+    return only_ops(m.graph.node) or any(only_ops(f.node) for f in m.functions)
+
+
 REGIONS = {
     # two value names that become the same Python identifier after clean-up ('a.b' / 'a_b'): wrong computation or duplicate argument
     "names_collide_after_cleanup": _collide,
-    "skip_initializers_on_model_without_initializers": lambda c: bool(c["opts"].get("skip_initializers")) and not _m(c).graph.initializer,
-    "skip_initializers_random_weights_unsupported_dtype": lambda c: bool(c["opts"].get("skip_initializers")) and any(i.data_type != 1 for i in _m(c).graph.initializer),
+    # (main graph or any subgraph: initializers of branches / loop bodies are skipped as well)
+    "skip_initializers_random_weights_unsupported_dtype": lambda c: bool(c["opts"].get("skip_initializers")) and any(i.data_type != 1 for i in _all_inits(_m(c).graph)),
+    # Python constants (inlined Constant nodes / initializers passed as numpy parameters) are typed by the converter with CastLike,
+    # which does not exist before opset 15: the generated script denotes a model that no runtime accepts
+    "python_constants_need_castlike_before_opset15": lambda c: (bool(c["opts"].get("inline_const")) or bool(c["opts"].get("skip_initializers"))) and _opset(c) < 15,
+    # use_operators=True renders Add/Sub/... as Python operators; a function (or main graph) made only of such nodes has no opset call
+    # left and @script() / @script(this1) carries no default_opset: the decorator raises
+    "use_operators_body_without_opset_call": lambda c: bool(c["opts"].get("use_operators")) and _operator_only_body(c),
     "rename_option_loses_graph_inputs": lambda c: bool(c["opts"].get("rename")),
     "inline_const_drops_still_referenced_definition": lambda c: bool(c["opts"].get("inline_const")),
     "inline_const_empty_list": lambda c: bool(c["opts"].get("inline_const")) and _empty_1d_const(c),
     "if_with_unused_outputs": _dead_if,
+    "function_attribute_default_not_exported": lambda c: any(len(f.attribute_proto) for f in _m(c).functions),
     "loop_nested_in_if_branch": lambda c: any(n.op_type == "If" and any(x.op_type == "Loop" for a in n.attribute if a.type == onnx.AttributeProto.GRAPH for x in _nodes(a.g))
                                               for n in _nodes(_m(c).graph)),
     "loop_with_condition_break_first": lambda c: any(n.op_type == "Loop" for n in _nodes(_m(c).graph)),
